@@ -1,243 +1,13 @@
 package rdp
 
 // C19 — the administrator's template: NewBuilderFromFile is executed for real; the libraries below
-// it are modelled at their API boundary (symbolic side only — natively the real koanf, file provider
-// and mapstructure run on a real temporary file, and translator validation compares every path):
-//   file.Provider(path)            the file's bytes
-//   koanf.New / (*Koanf).Load      bytes → Parser.Unmarshal (the repository's own RDP line reader,
-//                                  interpreted) → merged into the instance's map
-//   (*Koanf).UnmarshalWithConf     mapstructure's map → struct decoding as read from its source
-//                                  (v2.0.0-alpha.1 decodeStructFromMap / decodeBool / decodeInt /
-//                                  decodeString): exact key then strings.EqualFold, weak conversions
-//                                  only when WeaklyTypedInput, Metadata.Keys/Unused/Unset (Unset holds
-//                                  the TAG names of fields without a key; nothing is recorded when a
-//                                  member fails to convert).
+// it are modelled at their API boundary (shared harness part "koanf").
+
+//vp:use koanf
 
 import (
-	"errors"
-	"os"
-	"strconv"
-	"strings"
-
 	rdpparser "github.com/bolkedebruin/rdpgw/cmd/rdpgw/rdp/koanf/parsers/rdp"
-	"github.com/go-viper/mapstructure/v2"
-	"github.com/knadh/koanf/providers/file"
-	"github.com/knadh/koanf/v2"
 )
-
-//vp:all model github.com/knadh/koanf/providers/file.Provider = vpmFileProvider
-//vp:all model github.com/knadh/koanf/v2.New = vpmKoanfNew
-//vp:all model (*github.com/knadh/koanf/v2.Koanf).Load = vpmKoanfLoad
-//vp:all model (*github.com/knadh/koanf/v2.Koanf).UnmarshalWithConf = vpmKoanfUnmarshalWithConf
-
-var vpFiles map[string][]byte
-var vpLastProviderPath string
-var vpKoanfMaps map[*koanf.Koanf]map[string]interface{}
-
-// vpTemplateFile makes content available under a file name (natively a real temporary file).
-func vpTemplateFile(content string) string {
-	if vpSymbolic() {
-		if vpFiles == nil {
-			vpFiles = map[string][]byte{}
-		}
-		vpFiles["/vp/template.rdp"] = []byte(content)
-		return "/vp/template.rdp"
-	}
-	f, err := os.CreateTemp("", "vp-template-*.rdp")
-	if err != nil {
-		panic(vpAssumeFalse{})
-	}
-	f.WriteString(content)
-	f.Close()
-	return f.Name()
-}
-
-func vpRemoveTemplate(name string) {
-	if !vpSymbolic() {
-		os.Remove(name)
-	}
-}
-
-func vpmFileProvider(path string) *file.File {
-	vpLastProviderPath = path
-	return &file.File{}
-}
-
-func vpmKoanfNew(delim string) *koanf.Koanf { return &koanf.Koanf{} }
-
-func vpmKoanfLoad(ko *koanf.Koanf, p koanf.Provider, pa koanf.Parser, opts ...koanf.Option) error {
-	if p == nil {
-		return errors.New("load received a nil provider")
-	}
-	if pa == nil {
-		vpUnsupported("koanf.Load without a parser")
-	}
-	b, ok := vpFiles[vpLastProviderPath]
-	if !ok {
-		return errors.New("open " + vpLastProviderPath + ": no such file or directory")
-	}
-	mp, err := pa.Unmarshal(b)
-	if err != nil {
-		return err
-	}
-	if vpKoanfMaps == nil {
-		vpKoanfMaps = map[*koanf.Koanf]map[string]interface{}{}
-	}
-	cur := vpKoanfMaps[ko]
-	if cur == nil {
-		cur = map[string]interface{}{}
-	}
-	for k, v := range mp {
-		cur[k] = v
-	}
-	vpKoanfMaps[ko] = cur
-	return nil
-}
-
-func vpmKoanfUnmarshalWithConf(ko *koanf.Koanf, path string, o interface{}, c koanf.UnmarshalConf) error {
-	if path != "" || c.FlatPaths {
-		vpUnsupported("koanf.UnmarshalWithConf with a path or flat paths")
-	}
-	cfg := c.DecoderConfig
-	if cfg == nil {
-		cfg = &mapstructure.DecoderConfig{Result: o, WeaklyTypedInput: true}
-	}
-	if cfg.DecodeHook != nil || cfg.ErrorUnused || cfg.ErrorUnset || cfg.ZeroFields || cfg.Squash || cfg.IgnoreUntaggedFields || cfg.MatchName != nil {
-		vpUnsupported("mapstructure decoder option outside the model")
-	}
-	tag := c.Tag
-	if tag == "" {
-		tag = "koanf"
-	}
-	return vpMapDecode(vpKoanfMaps[ko], cfg.Result, tag, cfg.WeaklyTypedInput, cfg.Metadata)
-}
-
-// vpMapDecode: mapstructure's decoding of a map with string keys into a struct of string, int and
-// bool fields.
-func vpMapDecode(m map[string]interface{}, dst interface{}, tag string, weak bool, md *mapstructure.Metadata) error {
-	if md != nil {
-		md.Keys, md.Unused, md.Unset = []string{}, []string{}, []string{}
-	}
-	used := map[string]bool{}
-	var unset []string
-	failed := false
-	for _, f := range vpStructFields(dst, tag) {
-		key := f.Key
-		v, ok := m[key]
-		if !ok {
-			for k, vv := range m {
-				if strings.EqualFold(k, f.Key) {
-					v, ok, key = vv, true, k
-					break
-				}
-			}
-		}
-		if !ok {
-			unset = append(unset, f.Key)
-			continue
-		}
-		used[key] = true
-		if v == nil {
-			continue
-		}
-		conv := true
-		switch f.Kind {
-		case 0: // string
-			switch x := v.(type) {
-			case string:
-				*f.S = x
-			case int:
-				if weak {
-					*f.S = strconv.FormatInt(int64(x), 10)
-				} else {
-					conv = false
-				}
-			case bool:
-				if !weak {
-					conv = false
-				} else if x {
-					*f.S = "1"
-				} else {
-					*f.S = "0"
-				}
-			default:
-				vpUnsupported("mapstructure: input kind outside the model")
-			}
-		case 1: // int
-			switch x := v.(type) {
-			case int:
-				*f.I = x
-			case bool:
-				if !weak {
-					conv = false
-				} else if x {
-					*f.I = 1
-				} else {
-					*f.I = 0
-				}
-			case string:
-				if !weak {
-					conv = false
-				} else {
-					if x == "" {
-						x = "0"
-					}
-					i, err := strconv.ParseInt(x, 0, 64)
-					if err != nil {
-						conv = false
-					} else {
-						*f.I = int(i)
-					}
-				}
-			default:
-				vpUnsupported("mapstructure: input kind outside the model")
-			}
-		case 2: // bool
-			switch x := v.(type) {
-			case bool:
-				*f.B = x
-			case int:
-				if weak {
-					*f.B = x != 0
-				} else {
-					conv = false
-				}
-			case string:
-				if !weak {
-					conv = false
-				} else if b, err := strconv.ParseBool(x); err == nil {
-					*f.B = b
-				} else if x == "" {
-					*f.B = false
-				} else {
-					conv = false
-				}
-			default:
-				vpUnsupported("mapstructure: input kind outside the model")
-			}
-		default:
-			vpUnsupported("mapstructure: field kind outside the model")
-		}
-		if md != nil {
-			md.Keys = append(md.Keys, f.Key)
-		}
-		if !conv {
-			failed = true
-		}
-	}
-	if failed {
-		return errors.New("vp: mapstructure: 1 error(s) decoding")
-	}
-	if md != nil {
-		for k := range m {
-			if !used[k] {
-				md.Unused = append(md.Unused, k)
-			}
-		}
-		md.Unset = append(md.Unset, unset...)
-	}
-	return nil
-}
 
 type vpTplLine struct {
 	key  string
